@@ -217,13 +217,22 @@ pub fn guard<T>(f: impl FnOnce() -> T) -> Result<T, String> {
 /// Run `f` on its own thread, catching panics, and give up after `secs` seconds: a call that does not return is
 /// reported as Err (the abandoned thread keeps spinning until the process exits, which `Report::finish` forces).
 pub fn guard_timeout<T: Send + 'static>(secs: u64, f: impl FnOnce() -> T + Send + 'static) -> Result<T, String> {
+    // every abandoned call keeps a core busy for the rest of the run: after three of them the remaining watched calls
+    // are not started any more (they are reported as non-terminating too - the run already has its counterexamples)
+    static HUNG: AtomicU64 = AtomicU64::new(0);
+    if HUNG.load(Ordering::SeqCst) >= 3 {
+        return Err("not started: three earlier watched calls in this run did not return (non-terminating)".to_string());
+    }
     let (tx, rx) = std::sync::mpsc::channel();
     std::thread::spawn(move || {
         let _ = tx.send(guard(f));
     });
     match rx.recv_timeout(std::time::Duration::from_secs(secs)) {
         Ok(r) => r,
-        Err(_) => Err(format!("the call did not return within {} s (non-terminating)", secs)),
+        Err(_) => {
+            HUNG.fetch_add(1, Ordering::SeqCst);
+            Err(format!("the call did not return within {} s (non-terminating)", secs))
+        }
     }
 }
 
